@@ -54,6 +54,18 @@ CHECKS["C16"] = dict(
   text="For fixed fixtures of every tag class (generic T1T-T4T, Topaz/-512, NTAG213, FeliCa Lite/Lite-S) and each operation (ndef read/write, presence, format, protect, authenticate, dump, raw commands) every fault position (thorough; both ends + samples in quick) is combined with kind, burst 1-4/persistent and phase. Only TagCommandError may escape; bursts below the retry budget must leave result, memory and answered commands identical to the fault-free run; persistent errors must carry the matching reason code; effort stays bounded.",
   note=TRUST + "Known findings C16-t4t-presence-check-no-retry and C16-t4t-protocol-error-not-retried are excluded by class. The passive-ack packet of SECTOR SELECT and non-idempotent FeliCa Lite protect/MAC writes are exempt from the metamorphic oracle (stated in evidence).")
 
+CHECKS["C13"] = dict(
+  category="fault_enumeration",
+  technique="bounded-exhaustive fault enumeration + property-based testing: real driver objects (pn531/532/533, rcs956, acr122, arygon A/B, rcs380, udp) built through their own init() against chip simulators behind fake transports; every status code and every host-link fault at every host command of an exchange",
+  text="For each driver x target kind one fault-free ContactlessFrontend.exchange() yields the host command sequence; then every chip status code 0..255 (RC-S380: every status bit, pairs, random words) and every host fault (timeout, EIO, ENODEV, error frame, truncations, extensions, bit flips, wrong response code, short payload) is injected at every host command. exchange() must return data or raise nfc.clf.CommunicationError (documented mapping) or IOError; driver-internal exception types never escape. Thorough tier enumerates the full product.",
+  note=TRUST + "Chip simulators vlib/simchip.py and frame model vlib/ref_pn53x.py are trusted (anchored on literal frames of the repository tests). Built by a sub-agent, reviewed and re-run by the coordinator.")
+
+CHECKS["C14"] = dict(
+  category="exploration",
+  technique="bounded-exhaustive enumeration + property-based testing with independent reference models: every chipset class x command code x payload length through an independent frame validator; every bit flip/truncation/extension of response frames; CRC_A/CRC_B against an ISO/IEC 14443-3 Annex B implementation exhaustively for short messages",
+  text="Command frames written to the transport must parse under an independent PN53x/ACR122 CCID/RC-S380 frame model for every command and payload length (both sides of the 254/255 switch); a mutated response may only be accepted if the independent validator accepts it with the same data, otherwise IOError; CRC helpers equal the reference for all messages <= 2 (quick) / <= 3 (thorough) bytes and random longer ones, single-bit flips are rejected, the drivers' Type 2 Tag CRC path is checked.",
+  note=TRUST + "Reference models vlib/ref_crc.py (cross-checked bitwise vs bytewise and against the Annex B vectors) and vlib/ref_pn53x.py. Built by a sub-agent, reviewed and re-run by the coordinator.")
+
 PENDING_REASON = "not claimed yet: its generated-input check (DESIGN.md section 3) is still under construction in this session; nothing is asserted about it"
 
 def main():
